@@ -232,6 +232,17 @@ def corpus():
     out.append((build_request([], [], {12: [E("PITCH_ENVELOPE", 3)]}), ["malformed"]))
     out.append((build_request([("@2", ["2op", "9", "1", "1", "1", "1", "0"])], [], {12: [E("NOTE", 1, 1, 0)]}), ["malformed"]))
     out.append((build_request([], [], {12: [E("JUMP", 100)], 100: [E("JUMP", 100)]}), ["malformed"]))
+    # inputs of the repository fixes 7061cba, 85bdeee, c469126, db86e99, 357e378
+    out.append((build_request([("@1", [])], [], {12: [E("NOTE", 1, 1, 0)]}), ["malformed"]))                       # instrument without a type
+    out.append((build_request([("@1", ["psg", "15"]), ("@24", ["2op", "1", "1", "1", "1", "1", "0"])], [], {12: [E("NOTE", 1, 1, 0)]}), ["malformed"]))   # 2op on a PSG instrument
+    out.append((build_request([("@1", fm_tokens(1)), ("@2", ["2op", "1", "5", "5", "4", "4", "0"]), ("@3", ["2op", "2", "1", "2", "3", "4", "-4"])], [],
+                              {12: [E("INS", 3), E("NOTE", 36, 6, 0), E("INS", 2), E("NOTE", 36, 6, 0)]}), ["fm", "2op"]))     # 2op on a 2op
+    out.append((build_request([("@m1", ["0"] * 257)], [], {12: [E("PITCH_ENVELOPE", 1), E("NOTE", 1, 1, 0)]}), ["malformed"]))  # 257 nodes
+    out.append((build_request([("@m1", ["0", "1"] * 128)], [], {12: [E("PITCH_ENVELOPE", 1), E("NOTE", 36, 6, 0)]}), ["pitch"]))   # 256 nodes: accepted
+    out.append((build_request([("@m1", ["V0:1:1073741824"])], [], {12: [E("PITCH_ENVELOPE", 1), E("NOTE", 1, 1, 0)]}), ["malformed"]))
+    out.append((build_request([], ["P:-32768="], {12: [E("PLATFORM", -32768), E("NOTE", 36, 6, 0)]}), ["malformed", "platform"]))   # empty platform command
+    out.append((build_request([], [], {12: [E("JUMP", -25536), E("NOTE", 36, 6, 0)], 40000: [E("NOTE", 40, 2, 0)]}), ["sub"]))    # call to track 40000 = int16 -25536
+    out.append((build_request([], [], {12: [E("JUMP", -1), E("DRUM_MODE", 1), E("JUMP", -1), E("NOTE", 36, 6, 0)], 65535: [E("NOTE", 40, 2, 0)], 36: [E("NOTE", 1, 0, 0)]}), ["sub", "drum"]))
     return out
 
 
